@@ -75,7 +75,7 @@ OutOf(n, v) == (n :> [n |-> n, i |-> v])
 \* (a node of kind "empty" works normally but hands on a stream without a single chunk: it contributes nothing)
 NodeOut(gg, n, v) == IF n \in Range(gg.echo) THEN v ELSE IF FailKind(gg, n) = "empty" THEN Empty ELSE OutOf(n, v)
 \* the harness state carries pointer (nil / non-nil) and container fields that no handler touches: their digest must never change
-FreshStateDigest == "true|7|1|u,v|5|true|3|own"
+FreshStateDigest == "true|7|1|u,v|5|true|3|9|own"
 \* state handlers that modify what they pass on (scenario flag hmod): the pre-handler adds the key "pre" to the node's input,
 \* the post-handler adds the key "q<node>" to its output -- "the values they return are what the node and its successors receive"
 HMod(gg) == gg.state /\ gg.hmod
@@ -427,6 +427,8 @@ ErrorWhy(gg, V, e) == LET c == e.class IN
        \* (a chain generates its own node keys: for a lowered chain only the length of the path is compared)
        (IF ~\E p \in DOMAIN V : (StepLimitHit(V[p]) \/ LimitAtDeadEnd(V[p]))
                                  /\ (e.path = PathOf(gg, p) \/ (gg.lower = "chain" /\ Len(e.path) = Len(PathOf(gg, p)))) THEN "max-steps-error-not-expected"
+        \* (an interrupt point reached with the last allowed superstep is reported: the resumed call has a step budget of its own)
+        ELSE IF \A p \in DOMAIN V : (StepLimitHit(V[p]) \/ LimitAtDeadEnd(V[p])) => (V[p].afterDue # {} \/ ExpBefore(V, p) # {}) THEN "step-limit-error-hides-a-due-interrupt"
         ELSE IF ~e.is THEN "max-steps-sentinel-not-matchable" ELSE "ok")
   \* (the store refused the checkpoint write: the call must fail with that error instead of returning an interrupt nobody can resume)
   \* (whoever has to concatenate a stream without chunks fails: a value-form consumer, handler or branch condition behind an "empty" node)
